@@ -7,7 +7,8 @@
 //! ops: `manual thread t=<i> prog=<S<d>|F|L|X|m|M|N<k>|R|K…>`, `manual warm prog=…` (sequential, on this thread, no
 //! scheduler), `manual sched s=<tid,tid,…>` (runs the thread programs under the schedule).
 //! `X` = `record_dropped()`, `m` / `M` = `min_limit()` / `max_limit()` (no atomic operation: the harness yields once in
-//! front of them, so each is one turn); `N<k>` = `record_successes(k)`, `R` = `reset()`, `K` = `clone()` + one success on
+//! front of them, so each is one turn); `N<k>` = `record_successes(k)` (`k` a digit, or `a`…`e`: `usize::MAX`, `usize::MAX - 1`,
+//! `2^63`, `2^32`, `usize::MAX / 2` — the additive step saturates; `inc=` takes any `usize` too), `R` = `reset()`, `K` = `clone()` + one success on
 //! the clone (its two limits are reported) — the bare controller only; elsewhere they are one yield and nothing else.
 //!
 //! Protocol level: every `warm` and every `sched` also records the value-level trace of the hooked atomics with the
@@ -35,6 +36,19 @@ pub fn lat_ns(d: u32) -> u64 {
     }
 }
 
+/// the count of the op `N<c>` (`record_successes(n)`): a digit is itself; `a` … `e` are the counts at which the `usize`
+/// arithmetic of the code saturates (`TR.Limit.succsCount`)
+pub fn succs_count(c: char) -> usize {
+    match c {
+        'a' => usize::MAX,
+        'b' => usize::MAX - 1,
+        'c' => 1usize << 63,
+        'd' => 1usize << 32,
+        'e' => usize::MAX / 2,
+        _ => (c as u32).saturating_sub(48) as usize,
+    }
+}
+
 #[derive(Clone, Copy, Debug)]
 pub enum FOp {
     Succ(u64),
@@ -59,7 +73,7 @@ pub fn parse_prog(s: &str) -> Vec<FOp> {
                 i += 2;
             }
             'N' if i + 1 < cs.len() => {
-                v.push(FOp::Succs((cs[i + 1] as u32).saturating_sub(48) as usize));
+                v.push(FOp::Succs(succs_count(cs[i + 1])));
                 i += 2;
             }
             'F' => {
